@@ -22,13 +22,11 @@ fn unack_receiver(closure: bool, with_md: bool, shape: u8, ch: &Chans) -> (RecvT
     (RecvTransaction::verif_from_parts(p), b, k)
 }
 
-//# funcs=RecvTransaction::process_pdu (unacknowledged: Prompt, Ack, Nak, KeepAlive, Finished),has_pdu_to_send; bound=closure on/off, head of a 4-byte file held, one PDU of each non-data non-EOF kind; stubs=S1,S2,S3,S5
-th!(c18_q_recv_silent_directives, 10, {
+/// one non-data, non-EOF PDU kind per harness (rule 3: a symbolic kind makes symex pay for five full steps at once)
+fn silent_directive(which: u8) {
     let ch = chans();
     let closure: bool = kani::any();
     let (mut t, _b, _k) = unack_receiver(closure, true, 2, &ch);
-    let which: u8 = kani::any();
-    kani::assume(which < 5);
     let r = match which {
         0 => t.process_pdu(directive(U, Direction::ToReceiver, Operations::Prompt(PromptPDU { nak_or_keep_alive: NakOrKeepAlive::Nak }))),
         1 => t.process_pdu(directive(U, Direction::ToReceiver, Operations::Prompt(PromptPDU { nak_or_keep_alive: NakOrKeepAlive::KeepAlive }))),
@@ -39,10 +37,20 @@ th!(c18_q_recv_silent_directives, 10, {
     forget(r);
     assert!(!verif::recv_has_pdu_to_send(&t), "nothing to transmit before EOF");
     assert!(t.verif_ack().is_none() && t.verif_naks().is_empty() && !t.verif_has_prompt(), "no ACK, NAK or keep-alive is ever armed");
-    kani::cover!(which == 1, "prompt");
+    kani::cover!(closure, "closure requested");
     forget(t);
     forget(ch);
-});
+}
+//# funcs=RecvTransaction::process_pdu(Prompt NAK) unacknowledged,has_pdu_to_send; bound=closure on/off, head of a 4-byte file held; stubs=S1,S2,S3,S5
+th!(c18_q_recv_silent_prompt_nak, 10, { silent_directive(0) });
+//# funcs=RecvTransaction::process_pdu(Prompt keep-alive) unacknowledged,has_pdu_to_send; bound=closure on/off, head of a 4-byte file held; stubs=S1,S2,S3,S5
+th!(c18_q_recv_silent_prompt_keepalive, 10, { silent_directive(1) });
+//# funcs=RecvTransaction::process_pdu(KeepAlive) unacknowledged,has_pdu_to_send; bound=closure on/off, any progress value; stubs=S1,S2,S3,S5
+th!(c18_t_recv_silent_keepalive, 10, { silent_directive(2) });
+//# funcs=RecvTransaction::process_pdu(Nak) unacknowledged,has_pdu_to_send; bound=closure on/off; stubs=S1,S2,S3,S5
+th!(c18_t_recv_silent_nak, 10, { silent_directive(3) });
+//# funcs=RecvTransaction::process_pdu(Ack) unacknowledged,has_pdu_to_send; bound=closure on/off, ACK(EOF); stubs=S1,S2,S3,S5
+th!(c18_q_recv_silent_ack, 10, { silent_directive(4) });
 //# funcs=RecvTransaction::process_pdu(FileData) unacknowledged,store_file_data; bound=nothing held yet, 1 byte at offset 0..=3 (creates gaps): nothing is armed; stubs=S1,S2,S3,S5
 th!(c18_q_recv_silent_file_data, 10, {
     let ch = chans();
@@ -93,9 +101,9 @@ fn recv_eof(closure: bool, with_md: bool, shape: u8) {
     forget(t);
     forget(ch);
 }
-//# funcs=RecvTransaction::process_pdu(EoF) unacknowledged,check_file_size,finalize_receive,verify_checksum,finalize_file,shutdown; bound=4-byte file completely held, content+checksum symbolic, closure off; stubs=S1,S2,S3,S5
+//# funcs=RecvTransaction::process_pdu(EoF) unacknowledged,check_file_size,finalize_receive,verify_checksum,finalize_file,shutdown; bound=4-byte file completely held, content+checksum symbolic, closure off; stubs=S1,S2,S3,S5; nocover=incomplete at EOF
 th!(c18_q_recv_eof_complete, 12, { recv_eof(false, true, 1) });
-//# funcs=RecvTransaction::process_pdu(EoF) unacknowledged with closure,prepare_finished; bound=4-byte file completely held, closure on; stubs=S1,S2,S3,S5
+//# funcs=RecvTransaction::process_pdu(EoF) unacknowledged with closure,prepare_finished; bound=4-byte file completely held, closure on; stubs=S1,S2,S3,S5; nocover=incomplete at EOF
 th!(c18_q_recv_eof_complete_closure, 12, { recv_eof(true, true, 1) });
 //# funcs=RecvTransaction::process_pdu(EoF) unacknowledged,finalize_receive,verify_checksum; bound=head of the 4-byte file missing (held (2,4)), content+checksum symbolic: no complete delivery may be reported; stubs=S1,S2,S3,S5
 th!(c18_q_recv_eof_head_missing, 12, { recv_eof(false, true, 3) });
